@@ -5,6 +5,7 @@ func init() {
 		ID:    "C11",
 		Title: "Built-in functions meet their contracts, are pure and keep UTF-8 valid",
 		Rules: []string{
+			"R-OPTABLE (singletons): no builtin compares its receiver or arguments with the TRUE / FALSE / NIL singletons",
 			"R-PURE: no builtin-table function writes (store, in-place append, copy destination, sort, mutating call) memory derived from its receiver, its arguments or package-level state (effect summaries)",
 			"R-ARGS: every comma-ok assertion on args[i] returns (nil, error) on its miss edge; args[k] is indexed only under a len(args) guard (R-BOUNDS); unchecked assertions only on the receiver under the dispatch-table invariant (R-ASSERT)",
 			"R-UTF8: no string in a builtin is sliced or indexed at a byte offset that is not a character boundary; len/reverse/at/truncate/capitalize convert to []rune",
@@ -15,6 +16,7 @@ func init() {
 		NotDecided:  "TODO",
 		Assumptions: trustedBase,
 		Run: func(m *Model, s *Sink) {
+			m.RunSingletons(s, "R-OPTABLE") // a boolean receiver is used by its value, not by identity with the TRUE singleton (booleans from data and from contains() are fresh objects)
 			m.RunBuiltinPurity(s, "R-PURE")
 			m.RunBuiltinRules(s, "R-ARGS", "R-UTF8", "R-SIBLING")
 			m.RunRegistry(s, "R-REGISTRY") // includes: custom functions are consulted only after the builtin lookup missed
